@@ -374,3 +374,12 @@ Check no_panic_on_decodable :
     (forall p, In p (c_paths c) -> decodable (p_attrs p)) ->
     exists r, process_change_v fixed x pol emax raddr cid c e = Ok r.
 Print Assumptions no_panic_on_decodable.
+
+(* The segment view used by the statements above is unambiguous: the RFC 4271 reader
+   of Spec/ExportSpec.v reads a well-formed path back from its wire bytes. *)
+Theorem as_path_view_unambiguous :
+  forall p, wf_path p -> parse_path (encode_path p) = Some p.
+Proof. exact parse_encode_path. Qed.
+Check as_path_view_unambiguous :
+  forall p, wf_path p -> parse_path (encode_path p) = Some p.
+Print Assumptions as_path_view_unambiguous.
